@@ -1,5 +1,5 @@
 (* AsmCorr.v — correspondence cases and the C16 monitor for the assembler. *)
-From Vise Require Import Bytes Errors Consts Codec CorrBase CodecCorr AsmModel.
+From Vise Require Import Bytes Errors Consts Codec CorrBase CodecCorr AsmModel AsmPreModel.
 Local Open Scope N_scope.
 
 (* One case: the token-level source the harness generated (and printed as text with its own
@@ -8,7 +8,10 @@ Local Open Scope N_scope.
 Inductive acase : Type :=
 | ACase (src : list line) (written : bytes) (o : res unit)
 (* the shipped dev/asm command run on a file holding the same text: standard output, exit status *)
-| ACmd (src : list line) (out : bytes) (exit : N).
+| ACmd (src : list line) (out : bytes) (exit : N)
+(* the command with its flag preprocessor: `asm -f table.csv file`; the table is given as its
+   CSV records (lists of fields) *)
+| APre (rows : list (list bytes)) (src : list line) (out : bytes) (exit : N).
 
 Definition unit_eqb (_ _ : unit) : bool := true.
 
@@ -23,6 +26,9 @@ Definition asm_corr_ok (c : acase) : bool :=
     (* dev/asm/main.go: asm.Parse writes to standard output; error => exit 1, panic => exit 2 *)
     let (mw, mo) := asm_run src in
     bytes_eqb mw out && (ex =? match mo with Ok _ => 0 | Err _ => 1 | Panic _ => 2 end)
+  | APre rows src out ex =>
+    (* load error, preprocess error, parse error => exit 1; panic => exit 2 *)
+    let (mw, mx) := cmd_pre rows src in bytes_eqb mw out && (ex =? mx)
   end.
 
 (* C16 on the implementation's observed behaviour: a valid source that was assembled must
@@ -39,17 +45,38 @@ Definition c16_ok (c : acase) : bool :=
     else true
   | ACmd src out ex =>
     if valid_srcb src && (ex =? 0) then outcome_eqb (list_eqb instr_eqb) (parse_all out) (Ok (expand src)) else true
+  | APre rows src out ex =>
+    (* with a documented table: a source that has the documented form once every flag name is
+       replaced by its number must, if it is assembled, decode to exactly those instructions
+       ("the same ... signal ... arguments as written"); a source of documented form that uses
+       a name the table does not define must be refused: exit 1 and no bytecode *)
+    if valid_rows rows then
+      match resolve (spec_lookup rows) src with
+      | Some src1 =>
+        if valid_srcb src1 && (ex =? 0)
+        then outcome_eqb (list_eqb instr_eqb) (parse_all out) (Ok (expand src1)) else true
+      | None =>
+        match resolve (with_default (spec_lookup rows)) src with
+        | Some srcd => if valid_srcb srcd then (ex =? 1) && (len out =? 0) else true
+        | None => true
+        end
+      end
+    else true
   end.
 
 (* class of a failing case: the first listed finding whose guard the source satisfies *)
+Definition src_class (src : list line) : N :=
+  if in_K_numnorm src then 1
+  else if in_K_digitprefix src then 2
+  else if in_K_longsym src then 3
+  else if in_K_octal src then 4
+  else 0.
 Definition c16_class (c : acase) : N :=
   match c with
-  | ACase src _ _ | ACmd src _ _ =>
-    if in_K_numnorm src then 1
-    else if in_K_digitprefix src then 2
-    else if in_K_longsym src then 3
-    else if in_K_octal src then 4
-    else 0
+  | ACase src _ _ | ACmd src _ _ => src_class src
+  (* the classes are those of the source the assembler proper receives: names replaced *)
+  | APre rows src _ _ =>
+    match resolve (spec_lookup rows) src with Some src1 => src_class src1 | None => 0 end
   end.
 
 Definition asm_mismatches (cs : list acase) : list N := bad_indices asm_corr_ok cs.
